@@ -18,7 +18,8 @@ TRANSLATE = False
 RULE = (
     "stream pathlib: every string of length<=L over the alphabet {'/', '.', 'a', 'b'} (exhaustive) plus random "
     "strings with NUL/control/unicode/surrogates: pathlib.PurePosixPath root/parts/name/suffix/is_absolute/str "
-    "and with_suffix(ext) against the model. stream fsprim: random sandbox trees (directories, files with "
+    "and with_suffix(ext) against the model (stream suffix); stream join: a.joinpath(b) and a.joinpath(str(b)) for every "
+    "pair of strings of length<=3 over {'/', '.', 'a'} plus random pairs. stream fsprim: random sandbox trees (directories, files with "
     "distinctive contents, links: inside, outside, absolute, chains up to 41 long, loops, dangling, directory "
     "links, links back in) and paths through them: os.stat kind, Path.exists/is_file, Path.resolve(strict=False), "
     "open().read() against the model's walk. streams fsl / pkg: FileSystemLoader, CachingFileSystemLoader "
